@@ -23,6 +23,7 @@ import (
 	"github.com/google/badwolf/bql/lexer"
 	"github.com/google/badwolf/bql/table"
 	"github.com/google/badwolf/triple/literal"
+	"github.com/google/badwolf/triple/predicate"
 )
 
 // Evaluator interface computes the evaluation of a boolean expression.
@@ -377,7 +378,15 @@ func (e *comparisonForPredicateLiteral) Evaluate(r table.Row) (bool, error) {
 
 	switch e.operation {
 	case EQ:
-		return csEL == csER, nil
+		if csEL == csER {
+			return true, nil
+		}
+		// The same predicate can be written with its time anchor in another
+		// time zone: compare the predicates, not only their texts.
+		if p, err := predicate.Parse(csER); err == nil {
+			return leftBinding.P.UUID().String() == p.UUID().String(), nil
+		}
+		return false, nil
 	default:
 		return false, fmt.Errorf(`comparisonForPredicateLiteral.Evaluate got operation %q, but it accepts only the "=" operation. For ">" and "<" think about extracting bindings with the keywords ID/AT and using them for comparisons`, e.operation)
 	}
